@@ -135,6 +135,16 @@ def rule_r2(rep, idx):
         rep.add('R2a', '%s::%s:effects' % (CLS, nm), not bad, pos(f.node) + ' ' + f.qname,
                 ('; '.join('%s %s at %s' % (e[0], e[1], e[2]) for e in bad)) if bad else
                 'writes only %s' % sorted({e[1] for e in eff}))
+    rep.rule('R2c', 'the trace functions cannot throw: every boost::format chain they evaluate is fed exactly as many operands as its '
+             'format string has conversions (a mismatch raises too_few_args/too_many_args at run time and aborts the traced run)', floor=20)
+    for nm in TRACE_FUNCS:
+        f = idx.func(CLS + '::' + nm)
+        for (where_, lit, need, got) in cast.format_arity(idx, f):
+            rep.add('R2c', '%s::%s:format %r' % (CLS, nm, lit[:40]), need == got, where_ + ' ' + f.qname,
+                    'format %r has %d conversions and is given %d operands' % (lit, need, got), nontrivial=False)
+        throws = [x for x in walk(f.body) if x['kind'] == 'CXXThrowExpr']
+        rep.add('R2c', '%s::%s:no-throw-expression' % (CLS, nm), not throws, pos(f.node) + ' ' + f.qname,
+                'throw at %s' % pos(throws[0]) if throws else 'no throw expression', nontrivial=False)
     hooks = StubTrace()
     for b in range(256):
         if (b >> 4) == 12:
